@@ -215,7 +215,9 @@ CHECKS = {
     "C02": dict(
         category="exploration",
         text="Same scenario space as C01; the observation unresolved(after) subset of unresolved(before) (scope-aware, symtable + builtins) "
-        "is computed for every FileEnd event and monitored by Trace_Run.",
+        "is computed for every FileEnd event and monitored by Trace_Run.  ImportUse.tla transcribes the rule that decides that an import "
+        "is unused (import form x place x use x file x pragma); TLC proves it removes unused imports only (pinned export recognition "
+        "refuted); every program is run through unused-imports, the removal compared with the rule, and executed before and after.",
         design_ref="DESIGN.md §5 C02, §6",
         note="The predicate is computed by CPython's symtable, trusted; files with star imports are not judged.",
         technique="TLC-enumerated program variants run through the code; symtable oracle monitored by TLC trace validation",
